@@ -64,7 +64,7 @@ ARITH = ["none", "ADD $, 0x3", "SUB $, 0x10", "XOR $, 0x55", "SHL $, 1", "IMUL E
 CMPS = ["CMP $, 0x10", "TEST $, 0x1", "CMP $, 0x80000000", "TEST $, 0x80", "CMP $, 0x0", "CMP $, 0xFFFFFFFF", "TEST $, 0x80000000",
         "CMP $, 0x7FFFFFFF"]
 JCCS = ["JZ", "JNZ", "JB", "JA", "JL", "JG", "JS", "JAE", "JBE", "JGE", "JLE", "JNS", "JO", "JPE"]
-MODES = ["reg", "memdirect", "memload", "meminplace"]
+MODES = ["reg", "memdirect", "memload", "meminplace", "membuf"]
 
 
 def single(mode, arith, cmp_, jcc):
@@ -114,14 +114,74 @@ def multi(kind, mode, c1, j1, mid, c2, j2, c3=None, j3=None):
     return "\n".join(pre + body + ["end:", "    RET"]) + "\n"
 
 
+BUF = 0x2008       # symbolised buffer of the straddle family: inside the data page, so that stores can start below it
+STORE_K = {32: 0x44332211, 16: 0x2211, 8: 0x11}
+SIZE_KW = {32: "DWORD", 16: "WORD", 8: "BYTE"}
+
+
+def straddle(buflen, skind, soff, ssize, csize, coff, cconst, jcc):
+    """A store that is not aligned with the symbolised buffer [BUF, BUF+buflen), then a branch on bytes of the buffer.
+    skind: const (MOV size PTR [BUF+soff], K) or rmw (ADD size PTR [BUF+soff], 0x3); the compare reads csize bits at
+    BUF+coff."""
+    dst = "%s PTR [0x%X]" % (SIZE_KW[ssize], BUF + soff)
+    store = "MOV %s, 0x%X" % (dst, STORE_K[ssize]) if skind == "const" else "ADD %s, 0x3" % dst
+    lines = ["main:",
+             "    " + store,
+             "    CMP %s PTR [0x%X], 0x%X" % (SIZE_KW[csize], BUF + coff, cconst),
+             "    %s l1" % jcc,
+             "    MOV EBX, 0x1",
+             "    JMP end",
+             "l1:",
+             "    MOV EBX, 0x2",
+             "end:",
+             "    RET"]
+    return "\n".join(lines) + "\n"
+
+
+def straddle_class(spec):
+    """Where the store lies relative to the symbolised buffer, and whether the compare reads a byte it overwrote."""
+    _, buflen, skind, soff, ssize, csize, coff, cconst, jcc = spec
+    lo, hi = soff, soff + ssize // 8          # store covers [lo, hi) relative to BUF
+    if hi <= 0 or lo >= buflen:
+        where = "outside"
+    elif lo < 0 and hi >= buflen:
+        where = "covering-from-below"
+    elif lo < 0:
+        where = "straddling-start"
+    elif hi > buflen:
+        where = "straddling-end"
+    else:
+        where = "inside"
+    read = set(range(coff, coff + csize // 8))
+    over = read & set(range(lo, hi))
+    what = "overwritten-bytes" if over == read else ("kept-bytes" if not over else "mixed-bytes")
+    return where, what
+
+
+def straddles(buflen, skinds, stores, cmps, jccs):
+    return [["straddle", buflen, sk, soff, ssize, csize, coff, cconst, j] for sk in skinds for (soff, ssize) in stores
+            for (csize, coff, cconst) in cmps for j in jccs]
+
+
 def build(spec):
     if spec[0] == "single":
         return single(*spec[1:])
+    if spec[0] == "straddle":
+        return straddle(*spec[1:])
     return multi(*spec[1:])
 
 
 def spec_mode(spec):
+    if spec[0] == "straddle":
+        return "membuf"
     return spec[1] if spec[0] == "single" else spec[2]
+
+
+def spec_buf(spec):
+    """(address, length) of the symbolised memory input, None when the input is the register EAX."""
+    if spec[0] == "straddle":
+        return BUF, spec[1]
+    return None if spec_mode(spec) == "reg" else (DATA, 4)
 
 
 def singles(mode, ariths, cmps, jccs):
@@ -155,9 +215,29 @@ M3 = [("CMP $, 0x80000000", "JG"), ("TEST $, 0x80", "JNZ")]
 MIDS = ["none", "ADD $, 0x3"]
 
 
+# stores relative to the symbolised buffer: (offset of the first byte, size in bits)
+ST_START = [(-2, 32), (-1, 16), (-3, 32), (-1, 32)]
+ST_END = [(2, 32), (3, 16), (1, 32), (3, 32)]
+ST_IN = [(0, 32), (1, 16), (0, 8)]
+ST_OUT = [(-4, 32), (4, 32)]
+ST_COVER2 = [(-1, 32), (-2, 32), (-1, 16)]           # on a 2-byte buffer: covering it from below / straddling its start
+INS = [0x0, 0x33333333]
+BYTE_CMPS4 = [(8, k, c) for k in range(4) for c in (0x33, 0x7)]
+BYTE_CMPS2 = [(8, k, c) for k in range(2) for c in (0x33, 0x7)]
+
+
+def quick_straddles():
+    return (straddles(4, ["const", "rmw"], ST_START[:2], [(8, 0, 0x33), (8, 3, 0x33)], ["JZ"])
+            + straddles(4, ["const", "rmw"], ST_END[:2], [(8, 3, 0x33), (8, 0, 0x33)], ["JZ"])
+            + straddles(2, ["const", "rmw"], ST_COVER2[:1], [(8, 0, 0x33), (8, 1, 0x33)], ["JZ"])
+            + straddles(4, ["const"], ST_OUT[:1] + ST_IN[:1], [(8, 0, 0x33)], ["JZ"])
+            + straddles(4, ["const"], ST_START[:1] + ST_END[:1], [(32, 0, 0x10)], ["JB"]))
+
+
 def quick_groups():
     """(program specs, strategies, initial inputs) groups of the quick tier."""
     return [
+        (quick_straddles(), ["branch"], INS),
         (singles("reg", ARITH[:5], CMPS[:4], JCCS[:7]), ["branch"], IN2),
         (singles("memdirect", ["none"], CMPS[:4], JCCS[:5]), ["branch"], IN2),
         (singles("memload", ["none", "ADD $, 0x3"], CMPS[:2], JCCS[:4]), ["branch"], IN2),
@@ -176,6 +256,7 @@ def gcc_groups():
         (singles("meminplace", ["ADD $, 0x3"], CMPS[:1], JCCS[:2]), ["branch"], IN2),
         (multis(["nested"], ["reg"], M1[:1], MIDS, M2[:1]), ALL3, IN2M),
         (threes(["reg"], M1[:1], ["ADD $, 0x3"], M2[:1], M3[:1]), ALL3, IN2M),
+        (straddles(4, ["const", "rmw"], ST_START[:1], [(8, 0, 0x33)], ["JZ"]), ["branch"], INS),
     ]
 
 
@@ -197,6 +278,12 @@ def plan(tier):
         (multis(["nested", "seq", "nestedft"], ["reg", "memdirect"], M1, MIDS, M2), ALL3, IN2M),
         (multis(["nested"], ["memload"], M1[:2], MIDS, M2[:2]), ALL3, IN4),
         (threes(["reg", "memdirect"], M1[:3], MIDS, M2[:2], M3) + threes(["memdirect"], M1[3:4], ["none"], M2[1:2], M3[:1]), ALL3, IN2M),
+        (quick_straddles(), ["branch"], INS),
+        ([x for x in straddles(4, ["const", "rmw"], ST_START + ST_END + ST_IN + ST_OUT, BYTE_CMPS4, ["JZ"])
+          + straddles(2, ["const", "rmw"], ST_COVER2, BYTE_CMPS2, ["JNZ"])
+          + straddles(4, ["const", "rmw"], ST_START + ST_END, [(32, 0, 0x10), (16, 1, 0x3322), (16, 2, 0x3333)], ["JB", "JZ"])
+          if x not in quick_straddles()], ["branch"], INS),
+        (straddles(4, ["const", "rmw"], ST_START[:2] + ST_END[:2], [(8, 0, 0x33), (8, 3, 0x33)], ["JZ"]), ["code", "path"], INS),
     ]
     for specs, strats, ins in groups:
         jobs += [(s, "python", strats, ins) for s in specs]
@@ -241,7 +328,12 @@ def _mn():
 
 def _pick(cands, length=None):
     """Deterministic choice among miasm's candidate encodings: no operand/address-size prefix, shortest, then lowest."""
-    cands = [c for c in cands if c[:1] not in (b"\x66", b"\x67") and (length is None or len(c) == length)]
+    cands = [c for c in cands if length is None or len(c) == length]
+    plain = [c for c in cands if c[:1] not in (b"\x66", b"\x67")]
+    if not plain:
+        # 16-bit operands need the operand-size prefix; the address-size prefix is never wanted
+        plain = [c for c in cands if c[:1] == b"\x66" and c[1:2] != b"\x67"]
+    cands = plain
     if not cands:
         raise RuntimeError("no plain encoding")
     return min(cands, key=lambda c: (len(c), c))
@@ -333,16 +425,18 @@ def assembled(spec):
     return _st[key]
 
 
-def data_page(inp, mode):
+def data_page(inp, spec):
     from mc import jitprog as jp
     data = bytearray((i * 7 + 3) & 0xFF for i in range(jp.DATA_SIZE))
-    if mode != "reg":
-        data[0:4] = inp.to_bytes(4, "little")
+    buf = spec_buf(spec)
+    if buf is not None:
+        off = buf[0] - DATA
+        data[off:off + buf[1]] = inp.to_bytes(4, "little")[:buf[1]]
     return bytes(data)
 
 
-def start_regs(inp, mode):
-    return {"EAX": inp if mode == "reg" else 0x11111111, "EBX": 0, "ECX": 0, "EDX": 0}
+def start_regs(inp, spec):
+    return {"EAX": inp if spec_buf(spec) is None else 0x11111111, "EBX": 0, "ECX": 0, "EDX": 0}
 
 
 def dse_run(spec, backend, strat, inp):
@@ -356,7 +450,7 @@ def dse_run(spec, backend, strat, inp):
     src, code, labels, offs = assembled(spec)
     mode = spec_mode(spec)
     jit = jitx.fresh("x86_32", backend)
-    jp.setup(jit, code, regs=start_regs(inp, mode), data=data_page(inp, mode))
+    jp.setup(jit, code, regs=start_regs(inp, spec), data=data_page(inp, spec))
     jit.init_run(CODE)
     _mn()
     dse = DSEPathConstraint(_st["machine"], jit.lifter.loc_db, produce_solution=STRATS[strat])
@@ -365,7 +459,8 @@ def dse_run(spec, backend, strat, inp):
     if mode == "reg":
         dse.update_state({dse.lifter.arch.regs.EAX: ExprId("INPUT", 32)})
     else:
-        dse.symbolize_memory(interval([(DATA, DATA + 3)]))
+        buf = spec_buf(spec)
+        dse.symbolize_memory(interval([(buf[0], buf[0] + buf[1] - 1)]))
     trace = []
     inner = jit.exec_cb
 
@@ -403,19 +498,20 @@ def fresh_trace(spec, backend, inp):
         src, code, labels, offs = assembled(spec)
         mode = spec_mode(spec)
         jit = jitx.fresh("x86_32", backend, jit_maxline=1, max_exec_per_call=1)
-        jp.setup(jit, code, regs=start_regs(inp, mode), data=data_page(inp, mode))
+        jp.setup(jit, code, regs=start_regs(inp, spec), data=data_page(inp, spec))
         obs = jp.run(jit, CODE, max_dispatch=MAX_TRACE)
         _st[key] = (list(obs.dispatch), obs.stopped, obs.error)
     return _st[key]
 
 
-def model_input(model, mode):
+def model_input(model, spec):
     import z3
-    if mode == "reg":
+    buf = spec_buf(spec)
+    if buf is None:
         return model.eval(z3.BitVec("INPUT", 32), model_completion=True).as_long()
     v = 0
-    for i in range(4):
-        v |= model.eval(z3.BitVec("MEM_0x%x" % (DATA + i), 8), model_completion=True).as_long() << (8 * i)
+    for i in range(buf[1]):
+        v |= model.eval(z3.BitVec("MEM_0x%x" % (buf[0] + i), 8), model_completion=True).as_long() << (8 * i)
     return v
 
 
@@ -440,12 +536,17 @@ def writes_cell(spec):
     """The program modifies the symbolised memory cell in place before (one of) its compares."""
     if spec[0] == "single":
         return spec[1] == "meminplace"
+    if spec[0] == "straddle":
+        return False
     return spec[2] in ("memdirect", "meminplace") and spec[5] != "none"
 
 
 def skeleton(spec):
     """Signature skeleton of a program: structure, input mode and either the class "the symbolised cell is rewritten in
     place" or the instruction mnemonics (never the constants)."""
+    if spec[0] == "straddle":
+        where, what = straddle_class(spec)
+        return "straddle/buf%d/%s-store-%s/branch-on-%s" % (spec[1], spec[2], where, what)
     kind = "single" if spec[0] == "single" else spec[1]
     mode = spec_mode(spec)
     if writes_cell(spec):
@@ -465,7 +566,7 @@ def check_one(spec, backend, strat, inp):
     mode = spec_mode(spec)
     case = {"spec": spec, "backend": backend, "strategy": strat, "input": inp}
     ptxt = "program {%s } [%s, %s coverage, input %s = %#x]" % (" ;".join(l.strip() for l in src.splitlines()), backend, strat,
-                                                                 "EAX" if mode == "reg" else "@32[0x2000]", inp)
+                                                                 "EAX" if spec_buf(spec) is None else "@%d[%#x]" % (8 * spec_buf(spec)[1], spec_buf(spec)[0]), inp)
     sk = skeleton(spec)
     info = {"runs": 1, "errors": 0, "solutions": 0, "solutions_valid": 0, "constraints": 0, "nontrivial": 0, "fresh_runs": 0}
     vs = []
@@ -482,7 +583,7 @@ def check_one(spec, backend, strat, inp):
     for key, model in sols:
         addrs = key_addrs(loc_db, key)
         try:
-            newinp = model_input(model, mode)
+            newinp = model_input(model, spec)
         except Exception as e:
             vs.append(violation("solution:model-unreadable:%s:%s" % (type(e).__name__, sk), "%s: solution %s: %r" % (ptxt, _hx(addrs), e), case))
             continue
@@ -502,7 +603,7 @@ def check_one(spec, backend, strat, inp):
         if ok:
             info["solutions_valid"] += 1
         else:
-            side = "any-arm" if writes_cell(spec) else ("taken-arm" if addrs[-1] in labels.values() else "fallthrough-arm")
+            side = "any-arm" if writes_cell(spec) or spec[0] == "straddle" else ("taken-arm" if addrs[-1] in labels.values() else "fallthrough-arm")
             vs.append(violation("solution:branch-not-taken:%s:%s:%s" % (sk, strat, side),
                                 "%s: DSE trace %s; new solution for %s gives input %#x, but a fresh run with it has the trace %s (should %s)%s" % (
                                     ptxt, _hx(trace), _hx(addrs), newinp, _hx(ftrace), want, "; fresh run error: %s" % ferr if ferr else ""), case))
@@ -599,7 +700,7 @@ def _run(ctx):
         "evaluations": tot.get("runs", 0),
         "distinct_nontrivial": tot.get("nontrivial", 0),
         "programs": len(progs),
-        "programs_by_family": {k: sum(1 for s in progs if (s[0] if s[0] == "single" else s[1]) == k) for k in ("single", "seq", "nested", "nestedft", "three")},
+        "programs_by_family": {k: sum(1 for s in progs if (s[0] if s[0] == "single" else s[1]) == k) for k in ("single", "seq", "nested", "nestedft", "three", "straddle")},
         "programs_by_input_mode": {m: sum(1 for s in progs if spec_mode(s) == m) for m in MODES},
         "dse_runs_with_error": tot.get("errors", 0),
         "path_constraints_recorded": tot.get("constraints", 0),
